@@ -785,6 +785,42 @@ pub fn overload_programs(max_ops: usize) -> Vec<Program> {
             out.push(p);
         }
     }
+    out.extend(overload_handoff_programs());
+    out
+}
+
+/// C09 / C08: a trace started while the thread's ring is full and ended on ANOTHER thread (whose ring
+/// has room), a collector cycle, then the first thread traces again: the start of that trace was
+/// lost for good when it was issued; nothing about the trace may turn up (or stay behind) later.
+pub fn overload_handoff_programs() -> Vec<Program> {
+    let mut out = Vec::new();
+    let mut idx = 0;
+    for leave in [0usize, 1] {
+        for b_cancels in [false, true] {
+            for with_child in [false, true] {
+                idx += 1;
+                let mut a = vec![Op::Warm, root(9, "via", 0x9F), Op::Fill { leave, via: 9 }, root(3, "late", 0x94)];
+                if with_child {
+                    a.push(child(4, "late.c", 3));
+                    a.push(finish(4));
+                }
+                a.extend([sig(41), wait(50), root(5, "fresh", 0x93), child(6, "fc", 5), finish(6), finish(5), finish(9)]);
+                let mut b = vec![Op::Warm, wait(41)];
+                if b_cancels {
+                    b.push(cancel(3));
+                }
+                b.extend([finish(3), sig(42)]);
+                let mut p = Program::new(format!("C09-ring-handoff#{idx}")).worker("A", a).worker("B", b);
+                p.actors.push(Actor {
+                    name: "collector".into(),
+                    kind: ActorKind::Collector { atomic: false, pop_yields: 0 },
+                    ops: vec![Op::Wait(42), Op::Cycle, Op::Signal(50), Op::Cycle, Op::Cycle],
+                    after_exit_of: None,
+                });
+                out.push(p);
+            }
+        }
+    }
     out
 }
 
@@ -1110,6 +1146,58 @@ pub fn late_push_programs() -> Vec<Program> {
     out
 }
 
+/// C04: cancel() on one root while a span shared with another root (or a descendant of it) is the
+/// thread's local parent: what is recorded in that scope before and after the cancel still belongs
+/// to the surviving trace.
+pub fn cancel_in_scope_programs() -> Vec<Program> {
+    let mut out = Vec::new();
+    let mut idx = 0;
+    for cancel_which in [0u32, 1] {
+        for below in [false, true] {
+            for cancel_at in 0..3 {
+                idx += 1;
+                let mut ops = vec![root(0, "x", 0x4E0), root(1, "y", 0x4E1), child_of(2, "m", &[0, 1])];
+                let scoped = if below {
+                    ops.push(child(3, "mc", 2));
+                    3
+                } else {
+                    2
+                };
+                if cancel_at == 0 {
+                    ops.push(cancel(cancel_which));
+                }
+                ops.push(scope(scoped));
+                ops.push(lenter("before"));
+                ops.push(levent("before.e"));
+                ops.push(pop());
+                if cancel_at == 1 {
+                    ops.push(cancel(cancel_which));
+                }
+                ops.push(lenter("after"));
+                ops.push(lprop("after.k", "after.v"));
+                if cancel_at == 2 {
+                    ops.push(cancel(cancel_which));
+                }
+                ops.push(lenter("inner"));
+                ops.push(pop());
+                ops.push(pop());
+                ops.push(levent("top.e"));
+                ops.push(lchild(4, "lc"));
+                ops.push(finish(4));
+                ops.push(pop());
+                if below {
+                    ops.push(finish(3));
+                }
+                ops.push(finish(2));
+                ops.push(finish(0));
+                ops.push(finish(1));
+                out.push(Program::new(format!("C04-cancel-in-scope#{idx}")).worker("A", ops).collector(1, true, 0));
+            }
+        }
+    }
+    out
+}
+
 /// C06 / C10: every well-nested sequence of at most `max_len` local operations (enter a local span,
 /// leave it, attach a property, attach an event) inside one local-parent scope: where an
 /// attachment lands depends only on which local span is open at that moment, whatever was
@@ -1282,7 +1370,20 @@ pub fn many_ids_programs() -> Vec<Program> {
         .worker_after("T3", 2, mk(3, false))
         .worker_after("T4", 3, mk(4, true))
         .collector(1, true, 0);
+    // a thread that has opened 70000 scopes before (counters and epochs kept per thread have long
+    // passed 16 bits), then an ordinary tree
+    let tree = |ops: &mut Vec<Op>| {
+        ops.extend([scope(0), lenter("a"), pop(), lenter("b"), lenter("c"), pop(), lprop("b.k", "b.v"), lenter("d"), levent("d.e"), pop(), pop(), lchild(5, "x"), finish(5), lenter("e"), pop(), pop()]);
+    };
+    let mut long_a = vec![Op::ChurnScopes { n: 70_000, slot: None }, root(0, "r", 0x1F)];
+    tree(&mut long_a);
+    long_a.push(finish(0));
+    let mut long_b = vec![root(0, "r", 0x1F), Op::ChurnScopes { n: 70_000, slot: Some(0) }];
+    tree(&mut long_b);
+    long_b.push(finish(0));
     vec![
+        Program::new("C02-long-lived-thread#1").worker("A", long_a).collector(1, true, 0),
+        Program::new("C02-long-lived-thread#2").worker("A", long_b).collector(1, true, 0),
         Program::new("C02-many-ids#1").worker("A", one).collector(1, true, 0),
         Program::new("C02-many-ids#2").worker("A", two_a).worker("B", two_b).collector(1, true, 0),
         successive,
@@ -1329,5 +1430,24 @@ pub fn long_span_programs() -> Vec<Program> {
         finish(0),
     ];
     out.push(Program::new("C18-prebuilt#1").worker("A", ops).collector(0, true, 0));
+    // local spans that are still running when their scope reaches its span limit: they end when
+    // their guard is dropped, not when the scope ends
+    for leave in [0usize, 1, 2] {
+        let ops = vec![
+            root(0, "r", 0x18E),
+            scope(0),
+            lenter("outer"),
+            Op::FillLocalSpans { leave: leave + 1 },
+            lenter("last"),
+            Op::BusyWait { micros: 400 },
+            pop(),
+            Op::BusyWait { micros: 300 },
+            pop(),
+            Op::BusyWait { micros: 3_000 },
+            pop(),
+            finish(0),
+        ];
+        out.push(Program::new(format!("C18-at-limit#{leave}")).worker("A", ops).collector(0, true, 0));
+    }
     out
 }
